@@ -241,6 +241,11 @@ static int new_packet(int sk_fd, int timer_fd)
         return -1;
     }
 
+    if (n < (ssize_t) AVTP_FULL_HEADER_LEN) {
+        fprintf(stderr, "Dropping packet\n");
+        return 0;
+    }
+
     if (!is_valid_packet(cvf)) {
         fprintf(stderr, "Dropping packet\n");
         return 0;
@@ -253,6 +258,13 @@ static int new_packet(int sk_fd, int timer_fd)
         return -1;
 
     h264_data_len = get_h264_data_len(cvf);
+
+    /* The NAL data must have been received: this also bounds it by DATA_LEN */
+    if (Avtp_Cvf_GetStreamDataLength(cvf) < AVTP_H264_HEADER_LEN ||
+        h264_data_len > n - (ssize_t) AVTP_FULL_HEADER_LEN) {
+        fprintf(stderr, "Dropping packet\n");
+        return 0;
+    }
 
     res = schedule_nal(timer_fd, &tspec, h264Payload, h264_data_len);
     if (res < 0)
